@@ -108,6 +108,14 @@ func c10Inject(r *rand.Rand, fault string, cf ConfSpec) (reloadStep, bool) {
 		st.Raw = nil
 	case "malformed-yaml":
 		st.Raw = []byte(cf.YAML() + "\n  - this: [is not\n valid yaml: {{{\n")
+	case "listener-type-in-upper-case":
+		// Today this is refused ("unsupported listener type"); a server that accepted it would have to
+		// serve the listener. Either is all-or-nothing; loading it without serving it is not.
+		if len(cf.Services) == 0 {
+			return st, false
+		}
+		st.Raw = []byte(strings.Replace(strings.Replace(cf.YAML(), "type: tcp", "type: TCP", 1), "type: udp", "type: UDP", 1))
+		st.Expect = "either"
 	case "bad-listener-type", "address-without-port", "address-not-ip", "duplicate-listener":
 		if len(cf.Services) == 0 {
 			return st, false
@@ -157,7 +165,7 @@ func c10Inject(r *rand.Rand, fault string, cf ConfSpec) (reloadStep, bool) {
 var c10Cursor int
 
 var c10Order = []string{"bind-failure-tcp", "unreadable-file", "bind-failure-udp", "malformed-yaml", "bad-cipher-in-service", "bind-failure-tcp", "bad-listener-type",
-	"address-without-port", "bind-failure-udp", "address-not-ip", "duplicate-listener", "bad-cipher-in-legacy-key"}
+	"address-without-port", "bind-failure-udp", "address-not-ip", "duplicate-listener", "bad-cipher-in-legacy-key", "listener-type-in-upper-case"}
 
 var reCreatedBy = regexp.MustCompile(`created by (\S+)`)
 
@@ -320,8 +328,10 @@ func c10History(c *vk.Ctx, r *rand.Rand, hist int, hub *TargetHub, utgt *udpTarg
 			os.Remove(srv.CfgPath)
 			os.Mkdir(srv.CfgPath, 0o755)
 		} else {
-			os.RemoveAll(srv.CfgPath)
-			os.WriteFile(srv.CfgPath, st.Raw, 0o644)
+			if fi, err := os.Stat(srv.CfgPath); err == nil && fi.IsDir() {
+				os.RemoveAll(srv.CfgPath)
+			}
+			atomicWrite(srv.CfgPath, st.Raw)
 		}
 		res, err := srv.ReloadNoWrite(60 * time.Second)
 		if occ != nil {
@@ -336,6 +346,9 @@ func c10History(c *vk.Ctx, r *rand.Rand, hist int, hub *TargetHub, utgt *udpTarg
 		if err != nil {
 			c.Violation("C10/reload-produced-no-result", map[string]any{"err": err.Error(), "history": trace, "log": srv.LogTail(3000)})
 			return false
+		}
+		if st.Expect == "either" {
+			st.Expect = res
 		}
 		if res != st.Expect {
 			c.Violation("C10/reload-outcome", map[string]any{"expected": st.Expect, "got": res, "step": st, "history": trace, "log": srv.LogTail(1500)})
